@@ -242,6 +242,68 @@ def sequence(rng):
     return "".join(parts)
 
 
+def runs_of(cs):
+    """boundaries of the maximal runs of a set of code points: (first, last) of every run"""
+    out, prev, first = [], None, None
+    for c in sorted(cs):
+        if prev is None or c != prev + 1:
+            if prev is not None:
+                out.append((first, prev))
+            first = c
+        prev = c
+    if prev is not None:
+        out.append((first, prev))
+    return out
+
+
+def unicode_ident_literals(rng, d_start, d_cont, n):
+    """identifiers (argument names, `name$` widths and precisions) built from the characters on which an identifier
+    lexer can plausibly go wrong: XID_Continue characters that are not alphanumeric (combining marks, variation
+    selectors, connector punctuation, U+00B7), alphanumerics that are not XID_Continue (superscripts, fractions,
+    enclosed letters), XID_Start vs alphabetic, and both sides of every boundary of the XID tables (read from the real
+    unicode-xid tables of this run)."""
+    def ok(c):
+        return c < 0x110000 and not 0xD800 <= c <= 0xDFFF and c not in (0x7B, 0x7D)
+    cont_not_alnum = [c for c in d_cont if not chr(c).isalnum()]
+    alnum_not_cont = [c for c in range(0x80, 0x30000) if ok(c) and chr(c).isalnum() and c not in d_cont]
+    start_not_alpha = [c for c in d_start if not chr(c).isalpha()]
+    alpha_not_start = [c for c in range(0x80, 0x30000) if ok(c) and chr(c).isalpha() and c not in d_start]
+    cont_not_start = [c for c in d_cont if c not in d_start and c > 0x7f]
+    edges = []
+    for tab in (d_start, d_cont):
+        for (a, b) in runs_of(tab):
+            edges += [c for c in (a - 1, a, b, b + 1) if ok(c) and c > 0x7f]
+    classes = [("cont-not-alnum", cont_not_alnum), ("alnum-not-cont", alnum_not_cont), ("start-not-alpha", start_not_alpha),
+               ("alpha-not-start", alpha_not_start), ("cont-not-start", cont_not_start), ("table-edge", edges),
+               ("start", [c for c in d_start if c > 0x7f]), ("cont", [c for c in d_cont if c > 0x7f])]
+    classes = [(k, v) for (k, v) in classes if v]
+    out = []
+    heads = ["a", "_", "é", "न", "x1"]
+    while len(out) < n:
+        _, cs = rng.choice(classes)
+        ch = chr(rng.choice(cs))
+        r = rng.random()
+        if r < 0.45:
+            name = rng.choice(heads) + ch + rng.choice(["", "b", "1", "_"])
+        elif r < 0.7:
+            name = ch + rng.choice(["", "a", "9", "_x"])
+        else:
+            _, cs2 = rng.choice(classes)
+            name = rng.choice(heads) + ch + chr(rng.choice(cs2)) + rng.choice(["", "z"])
+        form = rng.random()
+        if form < 0.5:
+            out.append("{" + name + "}")
+        elif form < 0.65:
+            out.append("{" + name + rng.choice([":>5", ":x", ":?", " :e", ":.2"]) + "}")
+        elif form < 0.8:
+            out.append("{:" + rng.choice(["", "<", "0"]) + name + "$}")
+        elif form < 0.9:
+            out.append("{:." + name + "$}")
+        else:
+            out.append(rng.choice(["<", "x=", ""]) + "{" + name + "}" + rng.choice([">", " {}", ""]))
+    return out
+
+
 def short_strings(maxlen, alphabet):
     for n in range(0, maxlen + 1):
         for t in itertools.product(alphabet, repeat=n):
@@ -323,6 +385,9 @@ def run(tier, seed, replay):
         sh = list(short_strings(3 if tier == "quick" else 4, ALPHABET))
         chk.bump("short_strings", len(sh))
         lits += sh
+        ui = unicode_ident_literals(rng, d_start, d_cont, 1500 if tier == "quick" else 20000)
+        chk.bump("unicode_ident_literals", len(ui))
+        lits += ui
         lits = [l for l in dict.fromkeys(lits) if not any(ord(c) in avoid for c in l)]
         # the model-vs-code ties run on a subset (Coq evaluation is the slow part)
         n_tie = 6000 if tier == "quick" else 60000
